@@ -310,6 +310,79 @@ def direct(ctx, c_bucket, c_civil, c_time):
         corr.add(rep.strip() == impl, {"case": case, "impl": impl[:200], "model": rep[:200]})
 
 
+def mixed_run(ctx, corr_u):
+    """stock + futures accounts; a future with its own trading hours is subscribed (and later unsubscribed) during the run; daily
+    rules at times inside/outside the stock session and inside/outside the future's sessions"""
+    from rqalpha.environment import Environment
+    rnd = random.Random(ctx.rnd.random())
+    S = B.gen_market(rnd, ndays=rnd.randrange(9, 16), warm=1, n_stocks=1, with_future=True,
+                     opts={"kinds": ["CS"], "p_delist": 0, "p_split": 0, "p_div": 0, "p_sus": 0, "p_limit": 0, "p_thin": 0, "n_futures": 1, "p_expire": 0})
+    fut = S["futures"][0]["id"]
+    hours = [(541, 615), (631, 690), (811, 900)]          # the bundle's "09:01-10:15,10:31-11:30,13:31-15:00"
+    base = [(571, 690), (780, 900)]
+    both = rnd.random() < 0.75
+    accounts = {"stock": 1e7, "future": 1e7} if both else {"stock": 1e7}
+    days = [d for d in S["cal"] if S["start"] <= d <= S["end"]]
+    sub_i = rnd.choice([-1, 0, 1, 2, len(days) // 2])        # -1: in init
+    unsub_i = rnd.choice([None, None, sub_i + 2, sub_i + 3]) if sub_i + 3 < len(days) else None
+    times = [550, 571, 600, 620, 690, 700, 720, 790, 811, 850, 900, 905]
+    fired = []
+    state = {"universe_changed": False}
+
+    def init(context):
+        import rqalpha.api as api
+        for t in times:
+            api.scheduler.run_daily((lambda tt: (lambda c, b: fired.append((tt, c.now.date()))))(t), time_rule=api.physical_time(hour=t // 60, minute=t % 60))
+        if sub_i == -1:
+            api.subscribe(fut)
+
+    def before_trading(context):
+        import rqalpha.api as api
+        i = days.index(context.now.date())
+        if i == sub_i:
+            api.subscribe(fut)
+        if unsub_i is not None and i == unsub_i:
+            api.unsubscribe(fut)
+
+    res, exc = runner.run_real(S, dict(accounts=accounts), {"init": init, "before_trading": before_trading})
+    if exc is not None:
+        raise RuntimeError("mixed scheduler run failed: %r" % (exc,))
+    got = set(fired)
+    rp = {"accounts": sorted(accounts), "future": fut, "future_hours": hours, "subscribe_day": sub_i, "unsubscribe_day": unsub_i, "days": [str(d) for d in days]}
+    lines, meta = [], []
+    for i, d in enumerate(days):
+        subscribed = (sub_i <= i) and (unsub_i is None or i < unsub_i)
+        changed = sub_i <= i
+        hs = [hours] if (subscribed and both) else []
+        for t in times:
+            ctx.evaluations += 1
+            in_base = any(a <= t <= b for a, b in base)
+            want = in_base or any(a <= t <= b for h in hs for a, b in h)
+            have = (t, d) in got
+            ctx.nontrivial("mixed", both, subscribed, t)
+            if have != want:
+                ctx.witness("C17.days", {"kind": "session_after_universe_change", "in_stock_session": in_base, "future_subscribed": subscribed},
+                            "daily rule at %02d:%02d on %s (%s accounts, %s %s): %s, but that minute %s a trading minute (stock session%s)"
+                            % (t // 60, t % 60, d, "+".join(sorted(accounts)), fut, "subscribed" if subscribed else "not subscribed", "fired" if have else "did not fire",
+                               "is" if want else "is not", " + the future's hours" if hs else ""), rp)
+            # model: ranges after the universe change (or the initial baseline), then the daily bar
+            meta.append((have, t, d, changed, hs))
+    if ctx.driver_ok:
+        ur = {}
+        for key_hs in ((), (tuple(hours),)):
+            rep = vlib.ask_driver(["URANGES 1 0 %d %s" % (len(key_hs), " ".join("%d %s" % (2 * len(h), " ".join("%d %d" % r for r in h)) for h in key_hs))])[0].split()
+            ur[key_hs] = (int(rep[0]), [int(x) for x in rep[1:]])
+        for have, t, d, changed, hs in meta:
+            start_m, rs = ur[tuple(tuple(h) for h in hs)] if changed else (0, [571, 690, 780, 900])
+            lines.append("SCHTIME 1 %d %d %s 1 %d 900" % (start_m, len(rs), " ".join(map(str, rs)), t))
+        reps = vlib.ask_driver(lines)
+        for (have, t, d, changed, hs), rep in zip(meta, reps):
+            m_fire = len(rep.split()) > 1
+            corr_u.add(m_fire == have, {"minute": t, "day": str(d), "impl_fired": have, "model_fired": m_fire, "universe_changed": changed, "future_hours_counted": bool(hs)})
+    ctx.stats["mixed_runs"] += 1
+    ctx.stats["mixed_firings"] += len(fired)
+
+
 def run(ctx):
     corr = ctx.corr("scheduler whole runs (1d)", "firing days and slots of every registered (day rule, time rule) in real daily runs vs model `nextDay/dayRuleHolds/dayFirings`")
     corr_t = None
@@ -317,8 +390,11 @@ def run(ctx):
     c_bucket = ctx.corr("_fill_week/_fill_month", "real buckets on generated calendars vs model `fillWeek/fillMonth`")
     c_civil = ctx.corr("civil dates", "model `civilOfOrdinal/ordinalOfCivil/weekday` vs Python `datetime.date` (1990..2060: sampled in quick, exhaustive in thorough)")
     c_time = ctx.corr("market_open/market_close/physical_time", "real helper functions vs model")
+    c_uni = ctx.corr("sessions after a universe change (1d)", "daily rules at minutes inside/outside the stock session and a subscribed future's sessions, real runs vs model `universeRanges` + `dayFirings`")
     for _ in range(ctx.n(3, 60)):
         whole_run(ctx, corr, corr_t)
+    for _ in range(ctx.n(6, 150)):
+        mixed_run(ctx, c_uni)
     for _ in range(ctx.n(2, 40)):
         minute_drive(ctx, c_min)
     for _ in range(ctx.n(2, 30)):
